@@ -200,15 +200,67 @@ fn shape_fields(shape: u32) -> &'static [(&'static str, char)] {
     }
 }
 
-fn gen_value_for(rng: &mut Rng, kind: char) -> String {
+/// Bit width and signedness of an integer field.
+fn int_type(shape: u32, name: &str) -> (u32, bool) {
+    match (shape, name) {
+        (0, "a") => (8, false),
+        (0, "b") => (16, false),
+        (0, "c") => (32, false),
+        (0, "d") => (64, false),
+        (1, "a") => (8, true),
+        (1, "b") => (16, true),
+        (1, "c") => (32, true),
+        (1, "d") => (64, true),
+        (3, "o") => (32, false),
+        (6, "x-y") => (32, true),
+        (7, "id") => (32, false),
+        (8, "oi") => (64, true),
+        (12, "id") => (64, true),
+        (13, "n") => (64, false),
+        (13, "i") => (8, true),
+        (15, "id") => (32, false),
+        _ => (8, false),
+    }
+}
+
+/// An in-range spelling for the integer type, biased to the extremes.
+fn gen_int_in_range(rng: &mut Rng, bits: u32, signed: bool) -> String {
+    let (lo, hi): (i128, i128) = if signed {
+        (-(1i128 << (bits - 1)), (1i128 << (bits - 1)) - 1)
+    } else {
+        (0, (1i128 << bits) - 1)
+    };
+    let v = match rng.below(8) {
+        0 => lo,
+        1 => hi,
+        2 => lo + 1,
+        3 => hi - 1,
+        4 => 0,
+        5 => if signed { -1 } else { 1 },
+        _ => lo + (rng.next() as i128).rem_euclid(hi - lo + 1),
+    };
+    let mut s = v.to_string();
+    match rng.below(10) {
+        0 if v >= 0 => s.insert(0, '+'),
+        1 => {
+            let digits = s.trim_start_matches('-').to_string();
+            s = format!("{}00{}", if v < 0 { "-" } else { "" }, digits);
+        }
+        _ => {}
+    }
+    s
+}
+
+fn gen_value_for(rng: &mut Rng, shape: u32, name: &str, kind: char, careful: bool) -> String {
     // mostly of the right kind, so that whole structs succeed often
-    if rng.chance(1, 5) {
+    if rng.chance(1, if careful { 40 } else { 5 }) {
         return gen_scalar_string(rng);
     }
     match kind.to_ascii_lowercase() {
         'i' => {
-            if rng.chance(1, 2) {
-                rng.below(128).to_string()
+            if careful || rng.chance(1, 2) {
+                let (bits, signed) = int_type(shape, name);
+                gen_int_in_range(rng, bits, signed)
             } else {
                 gen_int_string(rng)
             }
@@ -222,17 +274,18 @@ fn gen_value_for(rng: &mut Rng, kind: char) -> String {
 
 fn gen_entries(rng: &mut Rng, shape: u32, allow_comps: bool) -> BTreeMap<String, VV> {
     let mut m = BTreeMap::new();
+    let careful = rng.chance(1, 2);
     for (name, kind) in shape_fields(shape) {
         let optional = kind.is_ascii_uppercase();
-        if rng.chance(if optional { 2 } else { 1 }, if optional { 5 } else { 12 }) {
+        if rng.chance(if optional { 2 } else { 1 }, if optional { 5 } else if careful { 60 } else { 12 }) {
             continue; // dropped
         }
-        let as_seq = allow_comps && ((*kind == 'v') != rng.chance(1, 12));
+        let as_seq = allow_comps && ((*kind == 'v') != rng.chance(1, if careful { 60 } else { 12 }));
         let v = if as_seq {
             let n = rng.range(0, 3);
             VV::C((0..n).map(|_| if *kind == 'v' && rng.chance(2, 3) { gen_text(rng, 0, 3) } else { gen_scalar_string(rng) }).collect())
         } else {
-            VV::S(gen_value_for(rng, *kind))
+            VV::S(gen_value_for(rng, shape, name, *kind, careful))
         };
         m.insert(name.to_string(), v);
     }
@@ -266,14 +319,15 @@ fn fm_streams(out: &mut Out, rng: &mut Rng, id: &mut u64, n: usize) {
 
 fn gen_query_string(rng: &mut Rng, shape: u32) -> String {
     let mut parts: Vec<Vec<u8>> = Vec::new();
+    let careful = rng.chance(1, 2);
     for (name, kind) in shape_fields(shape) {
         let optional = kind.is_ascii_uppercase();
-        if rng.chance(if optional { 2 } else { 1 }, if optional { 5 } else { 14 }) {
+        if rng.chance(if optional { 2 } else { 1 }, if optional { 5 } else if careful { 60 } else { 14 }) {
             continue;
         }
-        let reps = if rng.chance(1, 20) { 2 } else { 1 };
+        let reps = if rng.chance(1, if careful { 60 } else { 20 }) { 2 } else { 1 };
         for _ in 0..reps {
-            let val = gen_value_for(rng, *kind);
+            let val = gen_value_for(rng, shape, name, *kind, careful);
             let mut p = enc_component(rng, name.as_bytes(), QUERY_KEY_LAX, true);
             if !(val.is_empty() && rng.chance(1, 3)) {
                 p.push(b'=');
